@@ -492,6 +492,16 @@ fn run_c20(out: &mut Out, rng: &mut Rng, count: usize) {
     "for (let idx = 0; idx < 3; idx++) { f(idx); }\nfor (const idx of xs) { }",
     "let cnt = 0;\nfunction inc() { cnt++; }\nfunction other() { let cnt = 1; cnt = 2; return cnt; }\ninc(); other();",
     "type Foo = number;\nfunction f(a: Foo) { type Foo = string; let b: Foo = \"\"; return [a, b]; }\nf(1);",
+    // bindings the scope table of deno_ast has no entry for (setter parameter, parameter property, parameter of an arrow
+    // in a default value) that share their spelling with a function / class / const / import / catch binding and are
+    // assigned to
+    "function handler() {}\nconst o = { set x(handler) { handler = 1; f(handler); } };\nhandler(); f(o);",
+    "class Shape {}\nclass K { constructor(private Shape: number) { Shape = 2; f(Shape); } }\nnew Shape(); new K(1);",
+    "function count() {}\nfunction g(cb = (count) => { count = 1; return count; }) { return cb; }\ncount(); g();",
+    "import { item } from \"m\";\nconst o = { set v(item) { item = 2; f(item); } };\nuse(item, o);",
+    "const total = 1;\nconst p = { set t(total) { total = 2; f(total); } };\nf(total, p);",
+    "class Widget {}\nconst q = { set w(Widget) { Widget = null; f(Widget); } };\nnew Widget(); f(q);",
+    "try { f(); } catch (err) { const r = { set e(err) { err = 1; f(err); } }; f(r, err); }",
     // a free (undeclared) name, and later a local binding of the same spelling in a sibling scope
     "function early() { return item; }\nfunction later() { let item = 1; item = item + 1; return item; }\nearly(); later();",
     "log(entry);\nfunction g(entry) { return [entry, entry.x]; }\ng(1);",
